@@ -33,6 +33,10 @@ def _const(x):
     raise TraceError(f"cannot lift {type(x)}")
 
 
+def _is_array(x):
+    return type(x).__module__ == "numpy" and type(x).__name__ == "ndarray"
+
+
 def _is_const(t, v=None):
     return t[0] == "const" and (v is None or t[1] == v)
 
@@ -198,12 +202,19 @@ class CSym:
             return CSym(x.real, x.imag)
         return CSym(Sym.lift(x), 0)
 
+    # `scalar (op) ndarray` must broadcast: defer to NumPy's reflected operator (element-wise on object arrays)
+    __array_priority__ = -1.0
+
     def __add__(self, o):
+        if _is_array(o):
+            return NotImplemented
         o = CSym.lift(o)
         return CSym(self.re + o.re, self.im + o.im)
     __radd__ = __add__
 
     def __sub__(self, o):
+        if _is_array(o):
+            return NotImplemented
         o = CSym.lift(o)
         return CSym(self.re - o.re, self.im - o.im)
 
@@ -211,11 +222,15 @@ class CSym:
         return CSym.lift(o) - self
 
     def __mul__(self, o):
+        if _is_array(o):
+            return NotImplemented
         o = CSym.lift(o)
         return CSym(self.re * o.re - self.im * o.im, self.re * o.im + self.im * o.re)
     __rmul__ = __mul__
 
     def __truediv__(self, o):
+        if _is_array(o):
+            return NotImplemented
         if isinstance(o, (Sym, numbers.Real)):
             return CSym(self.re / o, self.im / o)
         o = CSym.lift(o)
